@@ -380,7 +380,8 @@ func (f *Frame) applyContractEnv(con *Contract, names []string, args []Val, sig 
 			cprops = c.Props // clause-level property tags decide who must discharge the precondition
 		}
 		for _, cp := range cprops {
-			if hasProp(f.props(), cp) {
+			// the calling function claims the property at function level or through one of its clauses
+			if hasProp(f.props(), cp) || (e.con != nil && e.con.clauseHasProp(cp)) {
 				shared = true
 			}
 		}
